@@ -204,6 +204,9 @@ func RunProperty(cfg Config) int {
 				if strings.HasPrefix(o.Status, "panic") && strings.HasPrefix(cx.id, "nopanic") {
 					repro = true
 				}
+				if o.Race && cfg.Prop == "C12" {
+					repro = true // the native run of this record raced under the race detector
+				}
 			}
 			if !repro {
 				st := "no output"
